@@ -95,6 +95,30 @@ def make(fmt, seed, n):
         except Exception as exc:
             continue
         yield f"{k}:{name}", iso
+    yield from converted(fmt)
+
+
+def converted(fmt):
+    """isotherms that reached their representation through the conversion methods (labels as the methods leave them,
+    e.g. loading_unit None after a conversion to a fractional basis), one per target representation"""
+    import pygaps
+    pygaps.logger.disabled = True
+    p, l = [0.05, 0.1, 0.2, 0.4, 0.3, 0.15], [0.5, 1.0, 1.5, 2.0, 1.9, 1.6]
+    for (pm, pu) in PRESSURE:
+        for (lb, lu) in LOADING:
+            for (mb, mu) in (('mass', 'g'), ('volume', 'cm3'), ('molar', 'mol')):
+                if fmt != 'json' and (PRESSURE.index((pm, pu)) + LOADING.index((lb, lu))) % 2 and mb != 'mass':
+                    continue  # the slower file formats take every other combination of the non-default material bases
+                iso = pygaps.PointIsotherm(pressure=p, loading=l, material={'name': 'pgv_rt_conv', 'density': 1.5, 'molar_mass': 120.0}, adsorbate='nitrogen',
+                                           temperature=77.355, pressure_mode='absolute', pressure_unit='bar', loading_basis='molar', loading_unit='mmol',
+                                           material_basis='mass', material_unit='g', temperature_unit='K', comment='converted')
+                try:
+                    iso.convert(pressure_mode=pm, pressure_unit=pu, loading_basis=lb, loading_unit=lu, material_basis=mb, material_unit=mu)
+                    for col in (iso.pressure_key, iso.loading_key):
+                        iso.data_raw[col] = numpy.round(iso.data_raw[col], 8)
+                except Exception:
+                    continue
+                yield f"conv:point|{pm}:{pu}|{lb}:{lu}|{mb}:{mu}", iso
 
 
 def compare(a, b, fmt):
